@@ -2,7 +2,8 @@
    Statements only.  `encode` calls the GENERATED INSTRUCTIONS dictionary (Gen/Encoders.v, regenerated from
    asm.py on every run); decode32 / denote32 / operands32 are the hand-written Spec. *)
 From Coq Require Import ZArith List String.
-From BB Require Import Base.PyBase Gen.Encoders Spec.RV32 Spec.Operands Model.Encode Proofs.Regs Proofs.C01Main.
+From BB Require Import Base.PyBase Gen.Encoders Spec.RV32 Spec.Operands Model.Encode Proofs.Regs Proofs.C01Main Model.Items Model.PyExpr Model.Parser Model.Passes Proofs.EndToEnd.
+Import ListNotations.
 Open Scope Z_scope.
 
 (* Whatever operands (ints or strings, any integer immediate) the encoder of one of the 66 base mnemonics
@@ -27,3 +28,30 @@ Print Assumptions C01_injective.
 Theorem C01_registers : forall a n, lookup_register a false = Ok n <-> regnum a = Some n.
 Proof. exact lookup_register_spec. Qed.
 Print Assumptions C01_registers.
+
+(* From the SOURCE LINE: for every three-register mnemonic of the assembler's R-type table and any operand tokens, the tokens
+   are parsed (parser model) to an item that the 16 passes of the pass model turn into exactly the four little-endian bytes of
+   the word the generated encoder returns -- the word that, by the theorem above, decodes to the instruction the operands name.
+   (Composes front end, passes and encoders inside Coq; elsewhere they are tied to each other through the correspondence checks.
+   rd <> "=": `add = ...` would be a constant definition; the rs2 token must be expression text the PyExpr model reads: it is
+   also tried as a shift amount.) *)
+Theorem C01_line_end_to_end :
+  forall l name rd rs1 rs2 a w,
+    In name EndToEnd.r3_names -> In name base_mnemonics -> String.eqb rd "=" = false -> PyExpr.arith_of_string rs2 = Some a ->
+    encode name [AStr rd; AStr rs1; AStr rs2] nil = Ok w ->
+    exists it ops i,
+      Parser.parse_item l (name :: rd :: rs1 :: rs2 :: nil) = Parser.FOk it /\
+      Passes.assemble_items ((l, it) :: nil) nil nil false =
+        Passes.Done {| Passes.r_chunks := (l, Passes.CBytes (Passes.le_bytes 4 w)) :: nil; Passes.r_consts := nil; Passes.r_labels := nil |} /\
+      0 <= w < 2 ^ 32 /\
+      operands32 name [AStr rd; AStr rs1; AStr rs2] nil = Some ops /\ denote32 name ops = Some i /\ decode32 w = Some i.
+Proof. exact EndToEnd.r_line_end_to_end. Qed.
+Print Assumptions C01_line_end_to_end.
+Example C01_line_example :
+  In "sub"%string EndToEnd.r3_names /\ In "sub"%string base_mnemonics /\ PyExpr.arith_of_string "x3" = Some (Items.AName "x3") /\
+  encode "sub" [AStr "x1"; AStr "t0"; AStr "x3"] nil = Ok 1077051571.
+Proof.
+  split. { apply (proj1 (in_map_iff _ _ _)) || idtac. vm_compute. auto 30. }
+  split. { vm_compute. auto 80. }
+  split; vm_compute; reflexivity.
+Qed.
